@@ -275,6 +275,7 @@ where
         }
 
         unsafe extern "C" fn cabi_wake(ptr: *mut c_void, code: u32) {
+            verif_trace!("rt.cabiwake", ptr, code, 0);
             let ptr: &mut CompletionStatus = unsafe { &mut *ptr.cast::<CompletionStatus>() };
             ptr.code = Some(code);
             ptr.waker.take().unwrap().wake()
@@ -549,6 +550,7 @@ impl<S: WaitableOp> Future for WaitableOperation<S> {
 
 impl<S: WaitableOp> Drop for WaitableOperation<S> {
     fn drop(&mut self) {
+        verif_trace!("rt.opdrop", &self.completion_status as *const CompletionStatus, self.is_done(), 0);
         // If this operation has already completed then skip cancellation,
         // otherwise it's our job to cancel anything in-flight.
         if self.is_done() {
